@@ -7,7 +7,8 @@
     EXTERNAL types).  [analyse_x true] is the code with fixes/C20-voi-external.diff, [analyse_x false] the code before;
     [sfx] / [sibling_fix]: the generator with / without fixes/C20-nla-sibling-dependencies.diff. *)
 From Coq Require Import List Bool Arith.
-From LC Require Import AnalysisDefs AnalysisSpec ExternalDefs ExternalEmitProofs ExternalMarkProofs ExternalProofs ExternalWitness.
+From LC Require Import AnalysisDefs AnalysisSpec AnalysisOwnProofs ExternalDefs ExternalEmitProofs ExternalMarkProofs ExternalProofs ExternalWitness
+                       ExternalMsgProofs ExternalOwnProofs ExternalWitness2.
 Import ListNotations.
 
 (** ** The model is C05's *)
@@ -46,12 +47,47 @@ Theorem C20_externals_exact : forall s marks r,
 Proof. exact ExternalProofs.externals_exact. Qed.
 Print Assumptions C20_externals_exact.
 
-(* NOT PROVED: "... with a placeholder equation of type EXTERNAL": forall a, av_type a = AExternal ->
-   exists e, av_eqs a = [ae_pos e] /\ In e (r_eqs r) /\ ae_type e = QExternal /\ ae_vars e = [av_var a].
-   It needs C05's one-definer invariant (AnalysisOwnProofs.loop_own, proved there for loops without external variables)
-   carried through the third pass, the NLA-unknown pruning and the packaging.  Evaluated on every run: on the
-   implementation's output for every valid marked case (checks/c20.py oracle (a)) and on the extracted model for all
-   small systems (ocaml/external/driver.ml search: placeholder_bad = 0 of 284 790 valid marked analyses). *)
+(** "... with a placeholder equation of type EXTERNAL": exactly one equation, of type EXTERNAL, computing only the
+    variable, whose dependencies are the equations computing the declared dependencies.
+
+    REFUTED as stated, in a corner that C05 owns: the analyser declares valid a model in which a state is computed by no
+    equation (one equation for two rates); such a state marked as external is an EXTERNAL variable without any equation.
+    Model and library agree (Analyser output identical; the Generator crashes on the unmarked model: state->equation(0)
+    is null).  Known finding C20-external-without-equation. *)
+Theorem C20_placeholder_refuted :
+  match result_of (analyse_x true sysD []), result_of (analyse_x true sysD mark_x) with
+  | Some r0, Some r1 =>
+      r_type r0 = MOde /\ map (fun a => (av_var a, av_eqs a)) (r_states r0) = [((0, 1), []); ((0, 2), [])] /\ r_eqs r0 = [] /\
+      r_type r1 = MOde /\ map (fun a => (av_var a, av_type a, av_eqs a)) (r_vars r1) = [((0, 1), AExternal, [])] /\ r_eqs r1 = []
+  | _, _ => False
+  end.
+Proof. exact ExternalWitness2.placeholder_refuted. Qed.
+Print Assumptions C20_placeholder_refuted.
+
+(** The part of the clause that is proved: C05's one-definer invariant holds at the end of the do/while loop of the
+    MARKED analysis too (C05 proves it for loops without external variables; the third pass only turns UNKNOWN into
+    INITIALISED, for which the invariant asks the same).  So when the loop stops every internal variable — external or
+    not — with a direct type is listed by exactly one equation, which lists nothing else and whose type matches; an NLA
+    unknown with an initial guess only by NLA equations; every other one (a marked constant, an unknown rescued by the
+    third pass, a state that never got its index) by none. *)
+Theorem C20_one_definer_with_externals : forall s marks ivs0 es0 st es1,
+  marks_in_range s marks -> build s = Some (ivs0, es0) ->
+  let U := vs_ivs (analyse_asts s ivs0 es0) in
+  loop s (loop_fuel es0) 1 false (mkCs (remark (eff s ivs0 U marks) 0 U) 0 0) es0 = Some (st, es1) ->
+  own_inv (cs_ivs st) es1.
+Proof. exact ExternalOwnProofs.one_definer_with_externals. Qed.
+Print Assumptions C20_one_definer_with_externals.
+
+(* NOT PROVED (the _partial of the refutation above): for an external variable whose internal variable is not a state left
+   without index, av_eqs a = [ae_pos e] with e in r_eqs r, ae_type e = QExternal, ae_vars e = [av_var a], and ae_deps e = the
+   populated equations of the declared dependencies.  What is missing after C20_one_definer_with_externals is the
+   re-packaging: (i) nla_group with pruning (an external unknown leaves every NLA equation and gets ONE added equation; an
+   NLA equation left without unknown is erased; sibling lists are renumbered), for which C05 only has the external-free
+   case (nla_group_core); (ii) that an INITIALISED_ALGEBRAIC variable has at least one owner; (iii) requalification and
+   the dummy equations of constants keep the unknown lists; (iv) make_avars / make_aeq / clean_deps.  Evaluated on every
+   run: on the implementation's output for every valid marked case (checks/c20.py oracle (a)) and on the extracted model
+   for all small systems (search: placeholder_bad = 0 of 284 790 valid marked analyses); the E= field (dependencies) is
+   compared with the library field by field. *)
 
 (** Before the repair the "not the variable of integration" part is FALSE: the variable of integration marked as
     external gets the message and still becomes an EXTERNAL variable that no equation computes. *)
@@ -104,7 +140,33 @@ Theorem C20_non_primary_mark_message : forall s marks ivs0 es0,
                    In (mkXissue rule (XLocal key)) (xr_messages (analyse_x true s marks)).
 Proof. exact ExternalProofs.non_primary_message. Qed.
 Print Assumptions C20_non_primary_mark_message.
-(* NOT PROVED, compared exactly on every run: a class marked more than once (two objects) also gets the message. *)
+(** The property's sentence, exactly: marking a NON-PRIMARY member of an equivalence class is reported with a message.
+    Whatever else is marked, every mark on a variable that is not the variable the analyser holds for its class when
+    the marks are read ([primary_at_marking]) yields a MESSAGE on that primary variable (USE_PRIMARY_VARIABLE, or VOI
+    when the class is the variable of integration) — and by C20_member_choice_irrelevant the analysis is the one obtained
+    by marking the primary variable instead. *)
+Theorem C20_non_primary_member_message : forall s marks ivs0 es0,
+  resolvable s = true -> build s = Some (ivs0, es0) -> check_inits s ivs0 0 s = [] ->
+  vs_issues (analyse_asts s ivs0 es0) = [] -> marks_in_range s marks ->
+  forall m r, In m marks -> xm_var m = XLocal r -> r <> primary_at_marking s r ->
+  exists rule, (rule = XVoi \/ rule = XUsePrimary) /\
+               cls_of s (primary_at_marking s r) = cls_of s r /\
+               In (mkXissue rule (XLocal (primary_at_marking s r))) (xr_messages (analyse_x true s marks)).
+Proof. exact ExternalMsgProofs.non_primary_member_message. Qed.
+Print Assumptions C20_non_primary_member_message.
+
+(** A class marked more than once (two AnalyserExternalVariable objects on variables of one class — the same variable
+    twice included) gets the message as well. *)
+Theorem C20_class_marked_twice_message : forall s marks ivs0 es0,
+  resolvable s = true -> build s = Some (ivs0, es0) -> check_inits s ivs0 0 s = [] ->
+  vs_issues (analyse_asts s ivs0 es0) = [] -> marks_in_range s marks ->
+  forall l1 m1 l2 m2 l3 r1 r2,
+  marks = l1 ++ m1 :: l2 ++ m2 :: l3 -> xm_var m1 = XLocal r1 -> xm_var m2 = XLocal r2 -> cls_of s r1 = cls_of s r2 ->
+  exists rule, (rule = XVoi \/ rule = XUsePrimary) /\
+               cls_of s (primary_at_marking s r1) = cls_of s r1 /\
+               In (mkXissue rule (XLocal (primary_at_marking s r1))) (xr_messages (analyse_x true s marks)).
+Proof. exact ExternalMsgProofs.class_marked_twice_message. Qed.
+Print Assumptions C20_class_marked_twice_message.
 
 (** The variable of integration (or any variable equivalent to it): with the repair, never changes the analysis, and
     is reported.  (Before the repair: C20_externals_exact_voi_refuted.) *)
@@ -159,8 +221,13 @@ Print Assumptions C20_add_dependency_example.
      depends_on s k (marked_classes s marks) = false -> definition_of s r1 k = definition_of s r0 k.
    ([depends_on] is the UNDIRECTED notion: k is linked to a marked class by a chain of equations, ExternalDefs.linked_classes;
    [definition_of] = (type, [(id, type) of the equations computing it]).)  By C20_marks_characterised the two runs enter the
-   loop with internal variables that differ only in mIsExternal / mDependencies at the marked positions; what is missing
-   is the non-interference of the loop, whose sweeps and pass switches are global.
+   loop with the same equations and with internal variables that differ only in mIsExternal / mDependencies at the marked
+   positions, and check() only reads and writes the internal variables its equation mentions.  What is missing is the
+   non-interference of the LOOP: the pass switches (checkNlaSystems, the third pass) are global, so the unlinked part of the
+   marked run sees extra sweeps in which it makes no progress, and a check() that returns false is NOT a no-op (it filters
+   mVariables, accumulates dependencies, re-targets mVariable of a variable it cannot type, which changes later
+   variableOnLhsRhs name tests).  The proof needs "idle sweeps change nothing that a later successful check reads", i.e.
+   an invariant about the variables that can never be typed; not done.
    Evidence: exhaustive over all one-component systems with <= 4 classes and <= 3 equations / <= 3 classes and <= 4
    equations drawn from 5 shapes, every marking of 1 or 2 classes (ocaml/external/driver.ml search: independent_changed = 0
    of 240 162 comparisons), and on the implementation for every valid generated case of every run (checks/c20.py oracle (b)). *)
@@ -200,8 +267,12 @@ Theorem C20_underconstrained_rescued_refuted :
 Proof. exact ExternalWitness.rescue_naive_refuted. Qed.
 Print Assumptions C20_underconstrained_rescued_refuted.
 
-(* NOT PROVED: if the system with the unknown classes given an initial value (i.e. as constants) is valid, then the system
-   with those classes marked as external is valid.  Evidence: exhaustive search (13 619 such small systems, all rescued);
+(* NOT PROVED (the strong form): if the system with the unknown classes given an initial value (i.e. as constants) is valid,
+   then the system with those classes marked as external is valid — the weakest hypothesis found ("only UNUSED issues" is not
+   enough: C20_underconstrained_rescued_refuted).  The two analyses run on DIFFERENT systems (the classes are INITIALISED from
+   the start in one, UNKNOWN during the first two passes in the other, so the greedy NLA pass may type other variables in
+   between): it needs a simulation between two loops that do not proceed in lockstep.  What is proved is
+   C20_underconstrained_rescued_partial.  Evidence: exhaustive search (13 619 such small systems, all rescued);
    on the implementation: two variants per generated system on every run (checks/c20.py oracle (d)). *)
 
 Example C20_underconstrained_rescued_example :
